@@ -7,7 +7,7 @@
 // ".tmp*" = the implementation's temp-file pattern, ".git"), dots only ("...", "..x" — valid
 // components, unlike ".."), backup / swap / temp suffixes, reserved-looking words (CON, NUL,
 // tmp, lost+found), spaces, shell/glob metacharacters, backslash, control characters, Unicode
-// (composed / decomposed, CJK, emoji), very long components.  Names starting with "._" are
+// (composed / decomposed / compatibility spellings, Hangul jamo, joiners, bidi marks, CJK, emoji), very long components.  Names starting with "._" are
 // left to the archive cases (Untar/Unzip drop them on purpose).
 //
 // Two generators use the family through the ordinary history machinery (runCaseCfg), so every
@@ -61,8 +61,29 @@ var nameFamily = []string{
 	"a b", " x", "x ", " ", "-x", "--", "*", "?", "[x]", "{x}", "%41", "x:y", "x\\y", "$x", "x;y", "x&y", "x'y", "x\"y", "x\ty", "x\ny",
 	// unicode (composed and decomposed u-umlaut, CJK, emoji, no-break space, zero-width space)
 	"\u00fc", "u\u0308", "\u65e5\u672c.proto", "\u540d", "\U0001F642", "\u00a0", "x\u200by",
+	// normalisation-form twins (NFC / NFD / compatibility spellings of the same text are DIFFERENT names):
+	// A-ring U+00C5 / A + U+030A / ANGSTROM SIGN U+212B, Hangul syllable U+AC01 / its jamo, fi ligature,
+	// two combining marks in both orders; zero-width joiner, right-to-left mark, byte-order mark
+	"\u00c5.proto", "A\u030a.proto", "\u212b.proto", "\uac01", "\u1100\u1161\u11a8", "\ufb01le", "q\u0323\u0307", "q\u0307\u0323",
+	"x\u200dy", "x\u200fy", "\ufeffx",
 	// long
 	long200,
+}
+
+// nameTwins: spellings that Unicode normalisation (NFC/NFD/NFKC) would identify.
+var nameTwins = map[string][]string{
+	"\u00fc":             {"u\u0308"},
+	"u\u0308":            {"\u00fc"},
+	"\u00c5.proto":       {"A\u030a.proto", "\u212b.proto"},
+	"A\u030a.proto":      {"\u00c5.proto", "\u212b.proto"},
+	"\u212b.proto":       {"\u00c5.proto", "A\u030a.proto"},
+	"\uac01":             {"\u1100\u1161\u11a8"},
+	"\u1100\u1161\u11a8": {"\uac01"},
+	"\ufb01le":           {"file"},
+	"q\u0323\u0307":      {"q\u0307\u0323"},
+	"q\u0307\u0323":      {"q\u0323\u0307"},
+	"x\u200dy":           {"xy", "x\u200by"},
+	"\ufeffx":            {"x"},
 }
 
 const (
@@ -169,6 +190,12 @@ func nameVocab(r *hx.Rand, i int) *vocab {
 	primary := nameFamily[i%len(nameFamily)]
 	add("d/" + primary)
 	add(primary + "/f.proto")
+	// the other spellings of the same text live NEXT to it: names that differ only in
+	// normalisation form are different objects in every bucket
+	for _, tw := range nameTwins[primary] {
+		add("d/" + tw)
+		add(tw + "/f.proto")
+	}
 	ordinaryDirs := []string{"d", "a/sub", "c"}
 	for len(pl) < 9 {
 		n := hx.Pick(r, nameFamily)
